@@ -42,6 +42,11 @@ namespace
         if (k == "I") return r.value_type("int");
         if (k == "F") return r.value_type("float");
         if (k == "S") return r.value_type("str");
+        // a small nominal hierarchy of scalar bundles: Animal <- Dog <- Puppy, Animal <- Cat
+        if (k == "A") return r.bundle("c19.verif", "Animal", {{"id", r.value_type("int")}});
+        if (k == "D") return r.bundle("c19.verif", "Dog", {{"id", r.value_type("int")}, {"barks", r.value_type("float")}}, {scalar_meta("A")});
+        if (k == "P") return r.bundle("c19.verif", "Puppy", {{"id", r.value_type("int")}, {"barks", r.value_type("float")}, {"age", r.value_type("int")}}, {scalar_meta("D")});
+        if (k == "C") return r.bundle("c19.verif", "Cat", {{"id", r.value_type("int")}, {"purrs", r.value_type("float")}}, {scalar_meta("A")});
         throw verif::HarnessError("scalar " + k);
     }
     const TSValueTypeMetaData *ts_meta(const Ty &t)
@@ -83,9 +88,25 @@ namespace
 
     // ---- reference unifier -----------------------------------------------------------------------------------------------
     using Bind = std::map<std::string, std::string>;   // variable -> concrete type text (sizes as text)
+    // inheritance distance between the scalar bundles (derived -> base), -1 when unrelated
+    int isa_distance(const std::string &derived, const std::string &base)
+    {
+        static const std::map<std::string, std::string> parent = {{"D", "A"}, {"P", "D"}, {"C", "A"}};
+        int d = 0;
+        for (std::string cur = derived;; ++d) { if (cur == base) return d; auto it = parent.find(cur); if (it == parent.end()) return -1; cur = it->second; }
+    }
+    bool is_bundle_scalar(const std::string &k) { return k == "A" || k == "D" || k == "P" || k == "C"; }
     bool unify(const Ty &p, const Ty &a, Bind &b)
     {
         if (p.k == "sig") return true;   // SIGNAL input accepts any time-series (input position)
+        // documented relaxation, inputs only: TS[~T] with T already bound to a bundle accepts TS of a bundle DERIVED from it (T keeps its
+        // binding); a concrete TS[Base] parameter accepts TS[Derived]. Never the other way round, never below TSS / dictionary keys.
+        if (p.k == "ts" && a.k == "ts" && is_bundle_scalar(a.c[0].k))
+        {
+            const std::string &pk = p.c[0].k;
+            if (pk[0] == '$') { auto it = b.find(pk); if (it != b.end() && is_bundle_scalar(it->second)) return isa_distance(a.c[0].k, it->second) >= 0; }
+            else if (is_bundle_scalar(pk)) return isa_distance(a.c[0].k, pk) >= 0;
+        }
         if (p.k[0] == '%' || p.k[0] == '$')
         {
             auto it = b.find(p.k);
@@ -192,6 +213,26 @@ namespace
         add("int_float", ts(leaf("I")), ts(leaf("F")), ts(leaf("F")));
         return v;
     }
+    // bundle-inheritance pool
+    std::vector<Cand> candidatesB()
+    {
+        std::vector<Cand> v;
+        auto add = [&](const std::string &l, Ty a, Ty b, std::optional<Ty> o) { v.push_back({l, {std::move(a), std::move(b)}, std::move(o)}); };
+        add("T_T", ts(leaf("$T")), ts(leaf("$T")), ts(leaf("$T")));
+        add("T_U", ts(leaf("$T")), ts(leaf("$U")), ts(leaf("$T")));
+        add("S_S", leaf("%S"), leaf("%S"), leaf("%S"));
+        add("S_R", leaf("%S"), leaf("%R"), leaf("%S"));
+        add("tslT_T", tsl(ts(leaf("$T")), "#N"), ts(leaf("$T")), ts(leaf("$T")));
+        add("tssT_T", tss(leaf("$T")), ts(leaf("$T")), ts(leaf("$T")));
+        add("T_tssT", ts(leaf("$T")), tss(leaf("$T")), ts(leaf("$T")));
+        add("animal_U", ts(leaf("A")), ts(leaf("$U")), ts(leaf("$U")));
+        add("dog_U", ts(leaf("D")), ts(leaf("$U")), ts(leaf("$U")));
+        return v;
+    }
+    std::vector<Ty> arg_typesB()
+    {
+        return {ts(leaf("A")), ts(leaf("D")), ts(leaf("P")), ts(leaf("C")), ts(leaf("I")), tsl(ts(leaf("A")), "2"), tsl(ts(leaf("D")), "2"), tss(leaf("A")), tss(leaf("D"))};
+    }
     // variadic pool: the LAST parameter of a variadic candidate is its tail pattern (zero or more trailing arguments, each matched on
     // its own: a tail argument must agree with every variable bound by the fixed parameters but does not bind the other tail arguments)
     std::vector<Cand> candidatesV()
@@ -255,6 +296,10 @@ namespace
             impl.rank = operator_dispatch_detail::operator_rank(impl.params, impl.variadic);
             // effective rank of a variadic candidate: its fixed parameters, plus the tail pattern once per consumed argument, plus one
             rank_of[c.label] = impl.rank;
+            // a concrete TS[Base] parameter fed a TS[Derived] argument ranks behind by the inheritance distance
+            for (std::size_t i = 0; i < c.params.size() && i < args.size(); ++i)
+                if (c.params[i].k == "ts" && is_bundle_scalar(c.params[i].c[0].k) && args[i].k == "ts" && is_bundle_scalar(args[i].c[0].k))
+                { const int d = isa_distance(args[i].c[0].k, c.params[i].c[0].k); if (d > 0) rank_of[c.label] += d; }
             if (c.variadic && args.size() + 1 >= c.params.size())
                 rank_of[c.label] += operator_dispatch_detail::param_pattern_rank(impl.params.back()) * static_cast<int>(args.size() - (c.params.size() - 1)) + 1;
             reg.register_overload(std::move(impl));
@@ -316,6 +361,8 @@ namespace
             const Cand *oc = nullptr;
             for (auto &c : pool) if (c.label == l) oc = &c;
             int agg = 0; bool comparable = !wc->variadic && !oc->variadic && wc->params.size() == oc->params.size();
+            // a concrete bundle parameter fed a derived bundle ranks by inheritance distance as well: the plain pattern order does not decide
+            for (const Cand *cc : {wc, oc}) for (auto &pp : cc->params) if (pp.k == "ts" && is_bundle_scalar(pp.c[0].k)) comparable = false;
             for (std::size_t i = 0; comparable && i < wc->params.size(); ++i)
             {
                 const int d = doc_order(oc->params[i], wc->params[i]);   // -1: other more specific
@@ -368,6 +415,7 @@ namespace
                 std::function<void(const Ty &)> scan = [&](const Ty &t) { if (t.k != "I" && t.k != "F" && t.k != "S" && t.str() == want_text) want_meta = ts_meta(t); for (auto &c : t.c) scan(c); };
                 for (auto &a : args) scan(a);
                 for (auto &a : arg_types()) scan(a);
+                for (auto &a : arg_typesB()) scan(a);
                 if (want_meta != nullptr && got != want_meta)
                     o.violation = "output type of '" + w + "' resolves to " + (got ? std::string{got->name()} : std::string{"<null>"}) + " but substituting the bindings into its output pattern gives " + want_text;
             }
@@ -381,9 +429,9 @@ namespace
         auto parts = std::vector<std::string>{};
         { std::string cur; for (char ch : desc) { if (ch == '|') { parts.push_back(cur); cur.clear(); } else cur += ch; } parts.push_back(cur); }
         const int arity = std::stoi(parts.at(0));
-        const std::vector<Cand> pool = arity == 1 ? candidates1() : arity == 2 ? candidates2() : candidatesV();
+        const std::vector<Cand> pool = arity == 1 ? candidates1() : arity == 2 ? candidates2() : arity == 3 ? candidatesV() : candidatesB();
         std::vector<int> fam; { std::string cur; for (char ch : parts.at(1)) { if (ch == ',') { fam.push_back(std::stoi(cur)); cur.clear(); } else cur += ch; } fam.push_back(std::stoi(cur)); }
-        std::vector<Ty> args; { const auto at = arity == 3 ? arg_typesV() : arg_types(); std::string cur; for (char ch : parts.at(2)) { if (ch == ',') { args.push_back(at[static_cast<std::size_t>(std::stoi(cur))]); cur.clear(); } else cur += ch; } args.push_back(at[static_cast<std::size_t>(std::stoi(cur))]); }
+        std::vector<Ty> args; { const auto at = arity == 3 ? arg_typesV() : arity == 4 ? arg_typesB() : arg_types(); std::string cur; for (char ch : parts.at(2)) { if (ch == ',') { args.push_back(at[static_cast<std::size_t>(std::stoi(cur))]); cur.clear(); } else cur += ch; } args.push_back(at[static_cast<std::size_t>(std::stoi(cur))]); }
         const int hint = parts.size() > 3 && !parts[3].empty() ? std::stoi(parts[3].substr(1)) : 0;
         std::sort(fam.begin(), fam.end());
         std::string first;
@@ -409,6 +457,7 @@ void verif_init() { stdlib::register_standard_operators(); }
 std::optional<std::string> verif_run_case(verif::Ctx &, const std::string &desc) { return run_family_case(desc); }
 
 void enumerate_variadic(verif::Ctx &ctx);
+void enumerate_bundles(verif::Ctx &ctx);
 void verif_enumerate(verif::Ctx &ctx)
 {
     const bool th = ctx.thorough();
@@ -464,6 +513,7 @@ void verif_enumerate(verif::Ctx &ctx)
         }
     }
     enumerate_variadic(ctx);
+    enumerate_bundles(ctx);
 }
 
 void enumerate_variadic(verif::Ctx &ctx)
@@ -509,6 +559,44 @@ void enumerate_variadic(verif::Ctx &ctx)
                 ctx.violation(desc, *v, "variadic: " + v->substr(v->find("] ") == std::string::npos ? 0 : v->find("] ") + 2, 60));
             }
             else if (ctx.evaluations % 9973 == 1) ctx.sample("cases", desc + " => " + sig);
+        }
+    }
+}
+
+void enumerate_bundles(verif::Ctx &ctx)
+{
+    const bool th = ctx.thorough();
+    const int max_family = th ? 4 : 3;
+    const std::size_t n = candidatesB().size(), na = arg_typesB().size();
+    std::vector<std::vector<int>> families;
+    std::function<void(std::vector<int> &, std::size_t)> rec = [&](std::vector<int> &cur, std::size_t start) {
+        if (!cur.empty()) families.push_back(cur);
+        if (static_cast<int>(cur.size()) == max_family) return;
+        for (std::size_t i = start; i < n; ++i) { cur.push_back(static_cast<int>(i)); rec(cur, i + 1); cur.pop_back(); }
+    };
+    std::vector<int> cur;
+    rec(cur, 0);
+    for (auto &fam : families)
+    {
+        std::string fs; for (std::size_t i = 0; i < fam.size(); ++i) fs += (i ? "," : "") + std::to_string(fam[i]);
+        for (std::size_t a0 = 0; a0 < na; ++a0) for (std::size_t a1 = 0; a1 < na; ++a1)
+        {
+            if (!ctx.next_is_mine()) continue;
+            const std::string desc = "4|" + fs + "|" + std::to_string(a0) + "," + std::to_string(a1);
+            ++ctx.evaluations;
+            std::string sig; bool nt = false; std::uint64_t resolves = 0;
+            auto v = run_family_case(desc, &sig, &nt, &resolves);
+            ctx.transitions += resolves; ctx.traces += resolves;
+            ctx.state("4|" + fs + "|" + sig);
+            if (nt) ctx.nontriv(desc);
+            ctx.count("families_bundle_inheritance");
+            if (v)
+            {
+                auto v2 = run_family_case(desc);
+                if (!v2 || *v2 != *v) throw verif::HarnessError("case not reproducible: " + desc);
+                ctx.violation(desc, *v, "bundles: " + v->substr(v->find("] ") == std::string::npos ? 0 : v->find("] ") + 2, 60));
+            }
+            else if (ctx.evaluations % 997 == 1) ctx.sample("cases", desc + " => " + sig);
         }
     }
 }
